@@ -61,6 +61,7 @@ type txSpec struct {
 type scenario struct {
 	world      int
 	roF, roK   int // reorg: roK empty blocks on top of main height roF (roK = 0: none)
+	fwd        int // empty blocks mined on top of the tip AFTER the pool was filled
 	now        int64
 	addr       bool
 	upd        bool // connect the time/extra-nonce updated block instead of the original one
@@ -130,8 +131,8 @@ func (t txSpec) String() string {
 
 func (s *scenario) line() string {
 	var b strings.Builder
-	fmt.Fprintf(&b, "C12 tmpl w=%d ro=%d:%d now=%d addr=%s upd=%s pb=%s src=%s pol=%d:%d:%d:%d h=%d mtp=%d seg=%s csv=%s cbw=%d cbs=%d hv=%d mat=%d",
-		s.world, s.roF, s.roK, s.now, b2s(s.addr), b2s(s.upd), b2s(s.pb), s.src, s.minW, s.maxW, s.prioSize, s.minFree,
+	fmt.Fprintf(&b, "C12 tmpl w=%d ro=%d:%d fwd=%d now=%d addr=%s upd=%s pb=%s src=%s pol=%d:%d:%d:%d h=%d mtp=%d seg=%s csv=%s cbw=%d cbs=%d hv=%d mat=%d",
+		s.world, s.roF, s.roK, s.fwd, s.now, b2s(s.addr), b2s(s.upd), b2s(s.pb), s.src, s.minW, s.maxW, s.prioSize, s.minFree,
 		s.nextH, s.mtp, b2s(s.seg), b2s(s.csv), s.cbw, s.cbs, s.halving, s.maturity)
 	for _, t := range s.txs {
 		b.WriteString(" tx=")
@@ -251,6 +252,8 @@ func parseScenario(f []string) *scenario {
 		case "ro":
 			g := strings.Split(v, ":")
 			s.roF, s.roK = int(pint(g[0])), int(pint(g[1]))
+		case "fwd":
+			s.fwd = int(pint(v))
 		case "now":
 			s.now = pint(v)
 		case "addr":
@@ -309,6 +312,9 @@ func (s *scenario) chainTimes() []int64 {
 		for i := 1; i <= s.roK; i++ {
 			ts = append(ts, worldT0+worldSpacing*int64(s.roF+i)+7)
 		}
+	}
+	for i := 0; i < s.fwd; i++ {
+		ts = append(ts, worldT0+worldSpacing*int64(len(ts))+13)
 	}
 	return ts
 }
